@@ -34,6 +34,7 @@ fn eps_param() -> Param {
             (Sym::Tiny, "just_inside", V, true),
             (Sym::L(1e-3), "inside", V, false),
             (Sym::L(1e10), "far_inside", V, false),
+            (Sym::Max, "max_finite", V, true),
         ],
     }
 }
@@ -111,6 +112,23 @@ fn kernel_param() -> Param {
     )
 }
 
+fn kernel_of<F: Float>(tag: &str) -> linfa_kernel::KernelParams<F> {
+    use linfa_kernel::{Kernel, KernelMethod};
+    Kernel::params().method(match tag {
+        "gaussian" => KernelMethod::Gaussian(F::cast(2.0)),
+        "polynomial" => KernelMethod::Polynomial(F::cast(1.0), F::cast(2.0)),
+        _ => KernelMethod::Linear,
+    })
+}
+
+fn platt_of<F: Float>(case: &Case) -> linfa::platt_scaling::PlattParams<F, ()> {
+    if case.vals.iter().any(|v| v.name == "platt_maxiter") {
+        Platt::params().maxiter(case.u("platt_maxiter") as usize).minstep(F::cast(case.f("platt_minstep"))).sigma(F::cast(case.f("platt_sigma")))
+    } else {
+        Platt::params()
+    }
+}
+
 fn common<F: Float, T>(p: SvmParams<F, T>, case: &Case) -> SvmParams<F, T> {
     let mut p = if case.moved(&["eps"]) { p.eps(F::cast(case.f("eps"))) } else { p };
     if case.moved(&["kernel"]) {
@@ -181,7 +199,9 @@ where
     });
     let make = || set(base(), case);
     let ops = vec![op(&make, "fit", |p| p.fit(&ds).map(|m| show(&m)).map_err(|e: SvmError| dbg(&e)), |p| p.fit(&ds).map(|m| show(&m)).map_err(|e: SvmError| dbg(&e)), |e| dbg(&e))];
-    judge(case, spec, &base, &set, Some(&|p| p.clone()), &[], &|p| dbg(p), &|c| dbg(c), ops, out);
+    let rb_kernel = setter(&base, |p, c| p.with_kernel_params(kernel_of(c.s("kernel"))));
+    let rb_platt = setter(&base, |p, c| p.with_platt_params(platt_of(c)));
+    judge(case, spec, &base, &set, Some(&|p| p.clone()), &[("with_kernel_params", &rb_kernel), ("with_platt_params", &rb_platt)], &|p| dbg(p), &|c| dbg(c), ops, out);
 }
 
 // ---------------- regression ----------------
@@ -257,7 +277,9 @@ macro_rules! regression_impl {
             });
             let make = || set(base(), case);
             let ops = vec![op(&make, "fit", |p| p.fit(&ds).map(|m| dbg(&m)).map_err(|e: SvmError| dbg(&e)), |p| p.fit(&ds).map(|m| dbg(&m)).map_err(|e: SvmError| dbg(&e)), |e| dbg(&e))];
-            judge(case, spec, &base, &set, Some(&|p| p.clone()), &[], &|p| dbg(p), &|c| dbg(c), ops, out);
+            let rb_kernel = setter(&base, |p, c| p.with_kernel_params(kernel_of(c.s("kernel"))));
+            let rb_platt = setter(&base, |p, c| p.with_platt_params(platt_of(c)));
+            judge(case, spec, &base, &set, Some(&|p| p.clone()), &[("with_kernel_params", &rb_kernel), ("with_platt_params", &rb_platt)], &|p| dbg(p), &|c| dbg(c), ops, out);
         }
     };
 }
